@@ -27,7 +27,7 @@ fn spec(t: Tier) -> Spec {
     Spec {
         id: "C18",
         level: "exploration",
-        rule: format!("every list of <= {} starting points over {} spellings (directory, ./, trailing /, //, /., ../, absolute, missing, file, link to directory with and without trailing /, dangling link, names beginning with ( and !; lists of <= 2 also under -H and -L) (plus, through -files0-from only: the empty name, a name starting with '-', a name containing a newline) is walked by find_main; the -print0 output must be the concatenation, in order, of the per-root reference walks with every path beginning with the root exactly as spelled; each argv list is also given as -files0-from FILE (with and without final NUL) and must give byte-identical output; missing roots must be diagnosed with non-zero status without affecting the others; the no-root case must equal '.'; binary slice: -files0-from - on stdin; non-trivial = list with >= 2 roots or a non-canonical spelling", bounds(t), ARGV_ROOTS.len()),
+        rule: format!("every list of <= {} starting points over {} spellings (directory, ./, trailing /, //, /., ../, absolute, missing, file, link to directory with and without trailing /, dangling link, names beginning with ( and !; lists of <= 2 also under -H and -L) (plus, through -files0-from only: the empty name, a name starting with '-', a name containing a newline) is walked by find_main; the -print0 output must be the concatenation, in order, of the per-root reference walks with every path beginning with the root exactly as spelled; each argv list is also given as -files0-from FILE (with and without final NUL) and must give byte-identical output; missing roots must be diagnosed with non-zero status without affecting the others; the no-root case must equal '.'; binary slice: -files0-from - on stdin; scale slice: 3000 starting points (18 000-byte list) on the command line, via -files0-from FILE and via -files0-from - with and without a final NUL; 255, 256, 257 and 512 missing starting points followed by an existing one through the binary (every one diagnosed, exit status non-zero, the existing one walked); non-trivial = list with >= 2 roots or a non-canonical spelling", bounds(t), ARGV_ROOTS.len()),
         bound: json!({"max_roots": bounds(t), "argv_spellings": ARGV_ROOTS, "files0_only": FILES0_ONLY}),
         assumptions: vec!["exit status after an empty -files0-from name is not judged (statement: 'diagnosed and skipped')".into()],
         shards: 0,
@@ -301,10 +301,96 @@ fn run(ctx: &mut Ctx) {
             }
         }
     }
+    if ctx.shard == 1 % ctx.nshards {
+        scale_slice(ctx);
+    }
     std::env::set_current_dir(&ctx.sbx).ok();
 }
 
+/// Lists far longer than the exhaustive ones: 3000 starting points (an 18 000-byte NUL-separated
+/// list: names straddle the 8192-byte marks) on the command line, via -files0-from FILE with and
+/// without a final NUL, and via -files0-from - (binary); and N = 255, 256, 257, 512 missing
+/// starting points followed by one that exists (binary: the exit status is what the parent sees).
+fn scale_slice(ctx: &mut Ctx) {
+    let many = ctx.sbx.join("many");
+    let _ = crate::sandbox::force_remove(&many);
+    std::fs::create_dir(&many).unwrap();
+    let names: Vec<String> = (0..3000).map(|i| format!("n{i:04}")).collect();
+    for n in &names {
+        std::fs::write(many.join(n), b"").unwrap();
+    }
+    std::env::set_current_dir(&many).unwrap();
+    let want: Vec<u8> = names.iter().flat_map(|n| n.bytes().chain(std::iter::once(0))).collect();
+    let listf = ctx.sbx.join(".mc-files0");
+    let mut variants: Vec<(String, Vec<String>, Option<Vec<u8>>, bool)> = vec![];
+    let mut a: Vec<String> = names.clone();
+    a.push("-print0".into());
+    variants.push(("3000 starting points on the command line".into(), a, None, false));
+    for final_nul in [true, false] {
+        let mut data = want.clone();
+        if !final_nul {
+            data.pop();
+        }
+        variants.push((format!("3000 starting points via -files0-from FILE ({} final NUL)", if final_nul { "with" } else { "without" }), vec!["-files0-from".into(), listf.to_string_lossy().to_string(), "-print0".into()], Some(data.clone()), false));
+        variants.push((format!("3000 starting points via -files0-from - ({} final NUL)", if final_nul { "with" } else { "without" }), vec!["-files0-from".into(), "-".into(), "-print0".into()], Some(data), true));
+    }
+    for (what, av, data, stdin) in variants {
+        let args: Vec<&str> = av.iter().map(|s| s.as_str()).collect();
+        let got = if stdin {
+            run_find_bin(&args, &many, data.as_deref())
+        } else {
+            if let Some(d) = &data {
+                std::fs::write(&listf, d).unwrap();
+            }
+            run_find(&args)
+        };
+        ctx.rep.evaluations += 1;
+        ctx.rep.nontrivial += 1;
+        ctx.rep.count("scale_lists", 1);
+        if got.out != want || got.code != Ok(0) {
+            let first = got.out.split(|&c| c == 0).zip(want.split(|&c| c == 0)).position(|(a, b)| a != b);
+            ctx.rep.violation(
+                "C18 a long list of starting points is not walked name by name",
+                format!("{what}: status {:?}, {} entries printed (expected 3000), first difference at entry {:?}; stderr {:?}", got.code, got.out.iter().filter(|&&c| c == 0).count(), first, String::from_utf8_lossy(&got.err).lines().take(3).collect::<Vec<_>>()),
+                json!({"prop":"C18","scale":true}),
+            );
+        }
+    }
+    for n in [255usize, 256, 257, 512] {
+        for via_file in [false, true] {
+            let mut roots: Vec<String> = (0..n).map(|i| format!("zz{i:04}")).collect();
+            roots.push("n0000".into());
+            let av: Vec<String> = if via_file {
+                let data: Vec<u8> = roots.iter().flat_map(|r| r.bytes().chain(std::iter::once(0))).collect();
+                std::fs::write(&listf, data).unwrap();
+                vec!["-files0-from".into(), listf.to_string_lossy().to_string(), "-print0".into()]
+            } else {
+                roots.iter().cloned().chain(std::iter::once("-print0".to_string())).collect()
+            };
+            let args: Vec<&str> = av.iter().map(|s| s.as_str()).collect();
+            let got = run_find_bin(&args, &many, None);
+            ctx.rep.evaluations += 1;
+            ctx.rep.nontrivial += 1;
+            ctx.rep.count("scale_lists", 1);
+            let diags = String::from_utf8_lossy(&got.err).lines().count();
+            if got.out != b"n0000\0" || got.code == Ok(0) || got.code.is_err() || diags < n {
+                ctx.rep.violation(
+                    "C18 many missing starting points: not all diagnosed / exit status 0 / the existing one not walked",
+                    format!("{n} missing starting points + 1 existing ({}): status {:?}, {} diagnostic line(s), stdout {:?}", if via_file { "-files0-from" } else { "command line" }, got.code, diags, String::from_utf8_lossy(&got.out)),
+                    json!({"prop":"C18","scale":true}),
+                );
+            }
+        }
+    }
+    let _ = std::fs::remove_file(&listf);
+}
+
 fn replay(case: &Value, ctx: &mut Ctx) -> Option<String> {
+    if case["scale"] == true {
+        scale_slice(ctx);
+        std::env::set_current_dir(&ctx.sbx).ok();
+        return ctx.rep.violations.keys().next().cloned();
+    }
     let env = setup(ctx);
     let roots: Vec<String> = case["roots"].as_array()?.iter().map(|v| v.as_str().unwrap_or("").to_string()).collect();
     let leaked: Vec<&'static str> = roots.iter().map(|s| &*Box::leak(s.clone().into_boxed_str())).collect();
